@@ -3,6 +3,7 @@ package props
 
 import (
 	"mcverif/engine"
+	"mcverif/props/c04"
 	"mcverif/props/c07"
 	"mcverif/props/c08"
 	"mcverif/props/c09"
@@ -16,6 +17,7 @@ import (
 )
 
 var Registry = map[string]engine.Spec{
+	"C04": c04.Spec,
 	"C07": c07.Spec,
 	"C08": c08.Spec,
 	"C09": c09.Spec,
@@ -30,5 +32,6 @@ var Registry = map[string]engine.Spec{
 
 // Aux are helper entry points run in fresh child processes by some checks.
 var Aux = map[string]func(args []string) int{
-	"c07ref": c07.Aux,
+	"c07ref":   c07.Aux,
+	"c04probe": c04.Aux,
 }
